@@ -1,9 +1,8 @@
 /-
   C11 — Any mix of overlapping events composes without interference.
   (The flat column arithmetic of the blocks is `Boario.Layout` / property file C11Layout.)
-  `perm_observables_step` is the one-step form of order independence; the run-level statement needs
-  a simulation relation up to block renaming and is not proved (checked differentially): it is named
-  `_partial` accordingly.
+  `perm_observables_step_partial` is the one-step form of order independence; the run-level theorem
+  `perm_invariant_run` (simulation relation up to block renaming) is in `Boario.Properties.C11Run`.
 -/
 import Boario.Lemmas.Sums
 import Boario.Invariant
